@@ -323,7 +323,7 @@ pub fn c09_exhaustive(tier: &str, acc: &mut Acc) -> Value {
 pub const META_C12: Meta = Meta {
     id: "C12",
     level: "exploration",
-    rule: "Each case takes one generated valid program (accepted by the crate in the same run, so a rejection is due to the edit) and applies every applicable instance of 11 single grammar-breaking edit operators, working on token spans found by the harness tokenizer: M1 delete a block's `end loop`/`end while`; M2 swap `end loop`<->`end while`, bare `end`, `end repeat`; M3 insert `end loop`/`end while` at top level; M4 delete / append one row entry, bits(k+-1,..); M5 delete one `;` `)` `(` `,`; M6 unknown function name, one argument more / fewer; M7 replace a literal by 2^63 / 2^64 in decimal, hex, binary, octal; M8 bits(k,..) with k in {65,100,255,256,10^6} and k+256, k+512, k+2^16, k+2^32; M9 duplicate a header name, duplicate a declare; M10 header only, no line break; M11 truncate at every token boundary at block depth > 0 or strictly inside a statement - each in three endings {as is, trailing newline added, trailing newlines removed} and in LF and CRLF. A mutant counts only if it is invalid by construction AND the independent recogniser refparse rejects it (so a mistake in either cannot alarm alone); then from_str must return Err. Ok = violation; a panic is C09's business and only counted. Non-trivial = a confirmed-invalid mutant of an accepted parent, distinct by text.",
+    rule: "Each case takes one generated valid program (accepted by the crate in the same run, so a rejection is due to the edit) and applies every applicable instance of 11 single grammar-breaking edit operators, working on token spans found by the harness tokenizer: M1 delete a block's `end loop`/`end while`; M2 swap `end loop`<->`end while`, bare `end`, `end repeat`; M3 insert `end loop`/`end while` at top level; M4 delete / append one row entry, bits(k+-1,..); M5 delete one `;` `)` `(` `,`; M6 unknown function name, one argument more / fewer; M7 replace a literal by 2^63 / 2^64 in decimal, hex, binary, octal; M8 bits(k,..) with k in {65,100,255,256,10^6} and k+256, k+512, k+2^16, k+2^32; M9 duplicate a header name, duplicate a declare; M10 header only, no line break; M11 truncate at every token boundary at block depth > 0 or strictly inside a statement; M12 more tokens on the same line after a complete statement (`let a = 1; 1 0`, `end loop 1`), `end loopx`; M13 letters glued to a number - each in three endings {as is, trailing newline added, trailing newlines removed} and in LF and CRLF. A mutant counts only if it is invalid by construction AND the independent recogniser refparse rejects it (so a mistake in either cannot alarm alone); then from_str must return Err. Ok = violation; a panic is C09's business and only counted. Non-trivial = a confirmed-invalid mutant of an accepted parent, distinct by text.",
     assumptions: &["refparse.rs (recogniser written from the grammar as stated in C08/C12) confirms invalidity", "harness tokenizer reflex.rs locates tokens"],
     quick_cases: 8000,
     thorough_cases: 200000,
@@ -373,8 +373,24 @@ fn mutants(text: &str, r: &mut Prng) -> Vec<Mutant> {
                 push("M2-swap-end", splice(kw.start, kw.end, other), &mut out);
                 push("M2-bare-end", splice(kw.start, kw.end, ""), &mut out);
                 push("M2-end-repeat", splice(kw.start, kw.end, "repeat"), &mut out);
+                // an identifier that merely starts with the keyword
+                push("M2-end-lookalike", splice(kw.end, kw.end, *r.pick(&["x", "_", "1", "s"])), &mut out);
+                // M12: something more on the same line after a complete statement
+                push("M12-trailing-tokens", splice(kw.end, kw.end, *r.pick(&[" 1", " X", " end", " loop", " ;"])), &mut out);
             }
-            K::Semi => push("M5-delete-semi", splice(t.start, t.end, ""), &mut out),
+            K::Semi => {
+                push("M5-delete-semi", splice(t.start, t.end, ""), &mut out);
+                // M12: a second statement / a row on the same line
+                if r.chance(1, 2) {
+                    let extra = match r.below(4) {
+                        0 => format!(" {}", vec!["1"; names.len()].join(" ")),
+                        1 => " let zz = 1;".to_string(),
+                        2 => " ;".to_string(),
+                        _ => " resetRandom;".to_string(),
+                    };
+                    push("M12-trailing-tokens", splice(t.end, t.end, &extra), &mut out);
+                }
+            }
             K::LParen => push("M5-delete-lparen", splice(t.start, t.end, ""), &mut out),
             K::RParen => push("M5-delete-rparen", splice(t.start, t.end, ""), &mut out),
             K::Comma => push("M5-delete-comma", splice(t.start, t.end, " "), &mut out),
@@ -401,6 +417,10 @@ fn mutants(text: &str, r: &mut Prng) -> Vec<Mutant> {
                 }
             }
             K::Dec | K::Hex | K::Bin | K::Oct => {
+                if r.chance(1, 6) {
+                    // M13: letters glued to a number (lexes as number + identifier)
+                    push("M13-number-with-letters", splice(t.end, t.end, *r.pick(&["ab", "q", "_", "G", "h1"])), &mut out);
+                }
                 if r.chance(1, 3) {
                     let big = *r.pick(&[
                         "9223372036854775808",
